@@ -31,7 +31,7 @@ RULE = (
 )
 ASSUMPTIONS = [
     "ref.codec is the Specification's wire format (own IEEE-754 encoder self-checked against struct on all binary16 patterns and midpoints)",
-    "values are Python numbers/str/bytes/list/dict; float inputs to integer fields and other coercions the property does not mention are not explored",
+    "values are Python numbers/str/bytes/list/dict; an integral-valued float given to an integer field denotes that integer (in range, at the range ends, far outside); non-integral floats for integer fields (rounding rule) and other coercions the property does not mention are not explored",
     "arrays longer than 3 elements are outside the bound except the 255/256 boundary family",
 ]
 
